@@ -1384,3 +1384,194 @@ class GridDriver(_QueryOnly):
 
 
 register(GridDriver())
+
+
+# --------------------------------------------------------------------------
+# further data-derived climate networks (C01: setters vs a fresh twin)
+
+
+class _DataClimateDriver(ClimateDriver):
+    """Shared by the data-derived climate networks: model = constructor
+    keyword arguments; the twin is built from a fresh, identical ClimateData."""
+    max_depth = 2
+    thresholds = (0.3, 0.6)
+    density = 0.5
+    T, cycle = 36, 12
+
+    def data(self):
+        return climate_data(T=self.T, time_cycle=self.cycle)
+
+    def base_model(self):
+        return {"t": 0.4, "non_local": False}
+
+    def models(self, tier):
+        return [self.base_model()]
+
+    def kwargs(self, model):
+        return dict(threshold=model["t"], non_local=model["non_local"])
+
+    def construct(self, model):
+        return self.cls()(self.data(), silence_level=3, **self.kwargs(model))
+
+    def mutators(self, model):
+        ms = [("set_threshold(%g)" % t, ["set_threshold", t])
+              for t in self.thresholds if t != model["t"]]
+        ms.append(("set_link_density(%g)" % self.density,
+                   ["set_link_density", self.density]))
+        ms.append(("set_non_local(%s)" % (not model["non_local"]),
+                   ["set_non_local", not model["non_local"]]))
+        return ms + self.extra_mutators(model)
+
+    def extra_mutators(self, model):
+        return []
+
+    def queries(self, model):
+        base = set(qlabel(q) for q in discover(ClimateDriver().cls()))
+        keep = ("degree", "adjacency", "similarity_measure", "threshold",
+                "n_links", "link_density", "nsi_degree", "betweenness",
+                "correlation_distance", "local_clustering", "path_lengths")
+        qs = [q for q in Driver.queries(self, model)
+              if qlabel(q) not in base or q[0] in keep]
+        qs.append(["adjacency", [], {}])
+        return qs
+
+
+class SpearmanDriver(_DataClimateDriver):
+    name = "SpearmanClimateNetwork"
+
+    def cls(self):
+        from pyunicorn.climate import SpearmanClimateNetwork
+        return SpearmanClimateNetwork
+
+    def base_model(self):
+        return {"t": 0.4, "non_local": False, "winter_only": False}
+
+    def kwargs(self, model):
+        return dict(_DataClimateDriver.kwargs(self, model),
+                    winter_only=model["winter_only"])
+
+    def extra_mutators(self, model):
+        return [("set_winter_only(%s)" % (not model["winter_only"]),
+                 ["set_winter_only", not model["winter_only"]])]
+
+    def apply(self, obj, model, spec):
+        if spec[0] == "set_winter_only":
+            m = dict(model)
+            obj.set_winter_only(spec[1])
+            m["winter_only"] = spec[1]
+            return m
+        return ClimateDriver.apply(self, obj, model, spec)
+
+
+register(SpearmanDriver())
+
+
+class PartialDriver(SpearmanDriver):
+    name = "PartialCorrelationClimateNetwork"
+
+    def cls(self):
+        from pyunicorn.climate import PartialCorrelationClimateNetwork
+        return PartialCorrelationClimateNetwork
+
+
+register(PartialDriver())
+
+
+class MutualInfoDriver(SpearmanDriver):
+    name = "MutualInfoClimateNetwork"
+    thresholds = (0.2, 0.5)
+
+    def cls(self):
+        from pyunicorn.climate import MutualInfoClimateNetwork
+        return MutualInfoClimateNetwork
+
+    def construct(self, model):
+        import os
+        for f in os.listdir("."):
+            if f.startswith("mutual_information_"):
+                os.unlink(f)
+        return SpearmanDriver.construct(self, model)
+
+    def apply(self, obj, model, spec):
+        if spec[0] == "set_winter_only":
+            m = dict(model)
+            # dump=False: the default writes a file into the current
+            # directory that later constructions silently read back
+            obj.set_winter_only(spec[1], dump=False)
+            m["winter_only"] = spec[1]
+            return m
+        return ClimateDriver.apply(self, obj, model, spec)
+
+
+register(MutualInfoDriver())
+
+
+class HavlinDriver(_DataClimateDriver):
+    name = "HavlinClimateNetwork"
+    thresholds = (1.0, 2.5)
+
+    def cls(self):
+        from pyunicorn.climate import HavlinClimateNetwork
+        return HavlinClimateNetwork
+
+    def base_model(self):
+        return {"t": 1.5, "non_local": False, "max_delay": 3}
+
+    def kwargs(self, model):
+        return dict(_DataClimateDriver.kwargs(self, model),
+                    max_delay=model["max_delay"])
+
+    def extra_mutators(self, model):
+        return [("set_max_delay(%d)" % d, ["set_max_delay", d])
+                for d in (2, 5) if d != model["max_delay"]]
+
+    def apply(self, obj, model, spec):
+        if spec[0] == "set_max_delay":
+            m = dict(model)
+            obj.set_max_delay(spec[1])
+            m["max_delay"] = spec[1]
+            return m
+        return ClimateDriver.apply(self, obj, model, spec)
+
+
+register(HavlinDriver())
+
+
+class HilbertDriver(_DataClimateDriver):
+    name = "HilbertClimateNetwork"
+
+    def cls(self):
+        from pyunicorn.climate import HilbertClimateNetwork
+        return HilbertClimateNetwork
+
+    def base_model(self):
+        return {"t": 0.4, "non_local": False, "directed": True}
+
+    def models(self, tier):
+        return [self.base_model(),
+                {"t": 0.4, "non_local": False, "directed": False}]
+
+    def kwargs(self, model):
+        return dict(_DataClimateDriver.kwargs(self, model),
+                    directed=model["directed"])
+
+    def extra_mutators(self, model):
+        return [("set_directed(%s)" % (not model["directed"]),
+                 ["set_directed", not model["directed"]])]
+
+    def apply(self, obj, model, spec):
+        if spec[0] == "set_directed":
+            m = dict(model)
+            obj.set_directed(spec[1])
+            m["directed"] = spec[1]
+            return m
+        return ClimateDriver.apply(self, obj, model, spec)
+
+    def admits(self, model, q):
+        if q[0] in ("eigenvector_centrality", "nsi_eigenvector_centrality",
+                    "msf_synchronizability"):
+            return False
+        return True
+
+
+register(HilbertDriver())
